@@ -29,6 +29,7 @@ DEFAULTS = {
     'spi_skip': '.',
     'spi_pop': '..',
     'view_decodes_again': False,
+    'filemap_per_instance': True,
 }
 
 REMAINDERS = {'(?P<%s>.*?)': False, '(?P<%s>(?s:.*?))': True}
@@ -170,8 +171,43 @@ def extract(src, problems):
         vals['view_decodes_again'] = SPLITTERS[name]
         shapes['pyramid/static.py:static_view.get_resource_name[masked]'] = masked_shape(fn, (), set(SPLITTERS))
 
+    def f_filemap():
+        # the filemap must be per-instance state created in __init__: `self.filemap = {}`
+        cls = st.find('static_view')
+        init = st.find('static_view.__init__')
+        assigns = [n for n in ast.walk(cls) if isinstance(n, (ast.Assign, ast.AugAssign, ast.AnnAssign))
+                   for t in (n.targets if isinstance(n, ast.Assign) else [n.target])
+                   if isinstance(t, ast.Attribute) and t.attr == 'filemap']
+        in_init = [n for n in ast.walk(init) if n in assigns]
+        if len(assigns) != 1 or len(in_init) != 1:
+            raise ValueError('expected exactly one assignment to .filemap, inside __init__ (found %d, %d in __init__)'
+                             % (len(assigns), len(in_init)))
+        a = assigns[0]
+        if not (isinstance(a, ast.Assign) and isinstance(a.value, ast.Dict) and not a.value.keys
+                and isinstance(a.targets[0].value, ast.Name) and a.targets[0].value.id == 'self'):
+            raise ValueError('self.filemap is not bound to a fresh {}: %s' % ast.unparse(a))
+        # class-level attributes of static_view must not be mutable containers
+        for n in cls.body:
+            if isinstance(n, (ast.Assign, ast.AnnAssign)):
+                raise ValueError('class-level attribute on static_view: %s' % ast.unparse(n))
+        # no module-level mutable state may be touched by static_view
+        mutable = set()
+        for n in st.tree.body:
+            if isinstance(n, (ast.Assign, ast.AnnAssign)):
+                v = n.value
+                tg = n.targets if isinstance(n, ast.Assign) else [n.target]
+                if isinstance(v, (ast.Dict, ast.List, ast.Set, ast.ListComp, ast.DictComp, ast.SetComp, ast.Call)):
+                    mutable |= {t.id for t in tg if isinstance(t, ast.Name)}
+        used = {n.id for n in ast.walk(cls) if isinstance(n, ast.Name)} | \
+               {g for n in ast.walk(cls) if isinstance(n, (ast.Global, ast.Nonlocal)) for g in n.names}
+        shared = sorted(mutable & used)
+        if shared:
+            raise ValueError('static_view uses module-level mutable state: %s' % ', '.join(shared))
+        vals['filemap_per_instance'] = True
+
     shapes = {}
     if st is not None:
+        attempt('filemap is per-instance state', f_filemap)
         attempt('function applied to request.path_info', f_view_split)
         attempt('_invalid_element_chars', f_invalid)
         attempt('_has_insecure_pathelement', f_insecure)
